@@ -225,12 +225,14 @@ def rule_R5(ctx, f):
     if not b:
         return
     ctx.saw(b)
-    if not b.calls_to("LabelPair::set_name"):
+    from pvrules.rules import field_sets
+    if not field_sets(b, "LabelPair", "name", "LabelPair::set_name"):
         # the variable pairs built by `iter.map(|..| pair)` and appended with collect / extend: look at the explicit push loop
         from pvrules import inline
         b = inline.desugar_map_collect(f, b) or b
-    sn = b.calls_to("LabelPair::set_name")
-    sv = b.calls_to("LabelPair::set_value")
+    # the pair gets its name and value through the setters, or is built with both in place (a constructor of the model expanded here)
+    sn = field_sets(b, "LabelPair", "name", "LabelPair::set_name")
+    sv = field_sets(b, "LabelPair", "value", "LabelPair::set_value")
     ps = b.calls_to("Vec::push")
     so = b.calls_to(["slice::sort", "slice::sort_unstable", "slice::sort_by", "slice::sort_by_key"])
     from pvrules import seqeval
